@@ -97,6 +97,12 @@ void bn_rec_win(uint8_t *win, size_t *len, const bn_t k, size_t w) {
 
 	l = bn_bits(k);
 
+	if (w == 0) {
+		*len = 0;
+		RLC_THROW(ERR_NO_VALID);
+		return;
+	}
+
 	if (*len < RLC_CEIL(l, w)) {
 		*len = 0;
 		RLC_THROW(ERR_NO_BUFFER);
@@ -704,9 +710,20 @@ void bn_rec_rtnaf(int8_t *tnaf, size_t *len, const bn_t k, int8_t u, size_t m,
 
 void bn_rec_reg(int8_t *naf, size_t *len, const bn_t k, size_t n, size_t w) {
 	/* Leave some room in case n and w do not align perfectly. */
-	size_t i, l = RLC_CEIL(n, w - 1), d = RLC_CEIL(l * (w - 1), RLC_DIG);
-	dig_t mask = RLC_MASK(w), *t = (dig_t *)RLC_ALLOCA(dig_t, d);
+	size_t i, l, d;
+	dig_t mask = RLC_MASK(w), *t;
 	int8_t u_i;
+
+	if (w < 2) {
+		/* The recoding has digits of w - 1 bits. */
+		*len = 0;
+		RLC_THROW(ERR_NO_VALID);
+		return;
+	}
+
+	l = RLC_CEIL(n, w - 1);
+	d = RLC_CEIL(l * (w - 1), RLC_DIG);
+	t = (dig_t *)RLC_ALLOCA(dig_t, d);
 
 	if (t == NULL) {
 		RLC_THROW(ERR_NO_MEMORY);
